@@ -99,6 +99,28 @@ pub fn show_pline(line: &str, f: FilterFormat, t: RuleTypes) -> Result<String, S
     })
 }
 
+/// The parse of every rule line a network-property run uses is compared with the model's parse
+/// (once per distinct line): a parser change that alters a rule's flags, types, scheme or domain
+/// lists is then reported by the check of whatever property the run belongs to, not only by C11.
+pub fn emit_plines(out: &mut Out, lines: &[String]) {
+    for line in lines {
+        if !line.is_ascii() || line.contains('\n') || out.seen_lines.contains(line) {
+            continue;
+        }
+        out.seen_lines.insert(line.clone());
+        let imp = match show_pline(line, FilterFormat::Standard, RuleTypes::All) {
+            Ok(s) => s,
+            Err(p) => {
+                out.fail("parse-panicked", None, json!({"api": "parse_filter", "line": line, "panic": p}));
+                continue;
+            }
+        };
+        let kind = imp.split(':').next().unwrap_or("").to_string();
+        out.bump(&format!("rule_line_parse:{}", kind));
+        out.case(&format!("pline\tS\tA\t{}", hex(line)), &imp, json!({"op": "rule-line-parse", "line": line, "impl": imp.chars().take(100).collect::<String>()}), kind == "N");
+    }
+}
+
 fn hosts_line(r: &mut Rng) -> String {
     let h = match r.below(16) {
         0 => "localhost".to_string(),
